@@ -174,7 +174,7 @@ func (c18Driver) Info() core.Info {
 		},
 		Real:       []string{"lexer", "parser", "AST builder incl. typedef registration", "Modules.add", "Process (include/import binding, identity and typedef resolution, ToEntry, augment, deviation)", "read API"},
 		Stub:       []string{"sequence of API calls (seeded history)", "storage damage applied to texts (seeded)", "Go map iteration order (seeded)", "disk (simulated: empty, or lib1/ and lib2/ holding the texts)"},
-		FaultKinds: []string{"text-short", "text-torn", "text-flip", "text-garbage", "text-dupblock", "rejected-statement", "toplevel-non-module"},
+		FaultKinds: []string{"text-short", "text-torn", "text-flip", "text-garbage", "text-dupblock", "rejected-statement", "toplevel-non-module", "read-of-rejected-text"},
 	}
 }
 
@@ -208,6 +208,11 @@ func (c18Driver) Generate(t *tape.Tape, tier string) core.Case {
 			b.Kind, b.A, b.B = "dupblock", bt.Intn(4096), bt.Intn(64)
 		case 5:
 			b.Kind, b.Raw = "raw", c18Raws[bt.Intn(len(c18Raws))]
+			if bt.Chance(1, 2) {
+				// statement soup (see C05): mostly rejected by the AST builder, at
+				// varying depth and after varying side effects
+				b.Raw = genSoup(bt)
+			}
 		case 6:
 			b.Kind, b.Raw = "toplevel", []string{"container top { leaf x { type string; } }\n", "foo bar;\n", "typedef tt { type string; }\n", "leaf;\n", ""}[bt.Intn(5)]
 		}
@@ -366,6 +371,7 @@ func (c18Driver) Run(cc core.Case) core.Outcome {
 				failedLoads++
 				if r.Op.Op == "read" {
 					o.Count("probe.failed_read", 1)
+					o.Count("fault.read-of-rejected-text", 1)
 				}
 				switch k := kind[tname]; k {
 				case "short", "torn", "flip", "garbage", "dupblock":
